@@ -92,6 +92,9 @@ unique_ptr<DiscreteDistributionInterface> BppODiscreteDistributionFormat::readDi
     while (strtok2.hasMoreToken())
       probas.push_back(TextTools::toDouble(strtok2.nextToken()));
 
+    if (values.size() == 0)
+      throw Exception("Simple distribution needs at least one value: " + args["values"]);
+
     std::map<size_t, std::vector<double>> ranges;
 
     if (args.find("ranges") != args.end())
